@@ -41,10 +41,10 @@ GRAMMAR_ORDER = [
     "assgn", "rightrec", "leftrec", "nullable", "ambig", "num", "multichar",
     "xmlish", "csvish", "altstart", "wide", "esc", "brace",
 ]
-TREE_CAP = {"quick": 24, "thorough": None}
+TREE_CAP = {"quick": 16, "thorough": None}
 CASE_TIMEOUT = {"quick": 12, "thorough": 120}  # CPU seconds per constraint
 SLOW_FAMILIES = ("numeric", "int-name")  # Z3-based evaluation strategy: fewer trees in the quick tier
-SLOW_TREE_CAP = {"quick": 10, "thorough": None}
+SLOW_TREE_CAP = {"quick": 6, "thorough": None}
 
 
 def check_case(case: dict, tier: str, seed: int, verbose: bool = False) -> dict:
